@@ -50,6 +50,8 @@ class TNone(Ty):           # statically None / absent optional argument
     def coq(self): return 'unit'
 class TStr(Ty):
     def coq(self): return 'unit'
+class TDefault(Ty):         # "argument not given: use the parameter's default"
+    def coq(self): return 'unit'
 class TObj(Ty):
     def __init__(self, cls): self.cls = cls
     def coq(self): return CLASSES.root_cfg(self.cls)['coq']
@@ -163,7 +165,10 @@ def configure_classes():
                                             ('_faces', 'm3_faces', TLst(TLst(Z)))])
     c['Face3D'] = rec('Face3R', 'mkFace3', [('_boundary', 'f3_boundary', TLst(O('Point3D'))),
                                             ('_holes', 'f3_holes', TOpt(TLst(TLst(O('Point3D'))))),
-                                            ('_plane', 'f3_plane', O('Plane'))])
+                                            ('_plane', 'f3_plane', O('Plane'))],
+                    # MODEL RESTRICTION: the Face3D model covers faces WITHOUT holes, where the merged vertex
+                    # loop `_vertices` is the boundary itself; faces with holes are validated by the harness only
+                    alias_slots={'_vertices': '_boundary'})
     c['BooleanPoint'] = rec('V2', 'mkV2', [('x', 'v2x', Q), ('y', 'v2y', Q)], plain_attrs=True)
 
 
@@ -390,7 +395,9 @@ class Translator:
             if meth == '__init__':
                 kind = 'init'
             return self.instantiate(kind, owner, mod, fn, spec['args'], spec.get('name'), self_cls=cls)
-        except Untranslatable as e:
+        except Exception as e:
+            if not isinstance(e, Untranslatable):
+                e = Untranslatable('translator error %s: %s' % (type(e).__name__, e))
             self.failed[spec.get('name', spec['target'])] = str(e)
             self.out.append((spec.get('name', spec['target']),
                              '(* UNTRANSLATABLE %s: %s *)\n' % (spec.get('name', spec['target']), e)))
@@ -436,6 +443,11 @@ def assigned_names(stmts):
         elif isinstance(t, ast.Attribute) and isinstance(t.value, ast.Name) and t.value.id == 'self':
             n = 'self.' + t.attr
             if n not in out: out.append(n)
+        elif isinstance(t, ast.Subscript) and isinstance(t.value, ast.Name):
+            if isinstance(t.slice, ast.Constant) and isinstance(t.slice.value, int):
+                n = '%s_%d' % (t.value.id, t.slice.value)
+                if n not in out: out.append(n)
+            if t.value.id not in out: out.append(t.value.id)
     for st in stmts:
         for n in ast.walk(st):
             if isinstance(n, ast.Assign):
@@ -486,7 +498,7 @@ class FuncTranslator:
         if len(arg_tys) > len(params):
             self.fail(fn, 'too many arguments')
         for i, p in enumerate(params):
-            if i < len(arg_tys):
+            if i < len(arg_tys) and not isinstance(arg_tys[i], TDefault):
                 t = arg_tys[i]
             else:
                 d = defaults[i]
@@ -668,6 +680,30 @@ class FuncTranslator:
             self.fail(st, 'raise on a reachable path')
         self.fail(st, 'statement %s' % type(st).__name__)
 
+    def fixed_list(self, name):
+        """is `name` used in this function only through constant subscripts (a fixed-size record)?"""
+        for n in ast.walk(self.fn):
+            if isinstance(n, ast.Name) and n.id == name:
+                par = self.parents().get(id(n))
+                if isinstance(par, ast.Subscript) and par.value is n and isinstance(par.slice, ast.Constant) \
+                        and isinstance(par.slice.value, int):
+                    continue
+                if isinstance(par, ast.Assign) and n in par.targets:
+                    continue
+                if isinstance(par, ast.Compare) and all(isinstance(c, (ast.List, ast.Tuple)) or c is n
+                                                        for c in [par.left] + par.comparators):
+                    continue
+                return False
+        return True
+
+    def parents(self):
+        if not hasattr(self, '_parents'):
+            self._parents = {}
+            for p in ast.walk(self.fn):
+                for c in ast.iter_child_nodes(p):
+                    self._parents[id(c)] = p
+        return self._parents
+
     def as_load(self, t):
         t2 = ast.parse(ast.unparse(t), mode='eval').body
         return t2
@@ -684,15 +720,18 @@ class FuncTranslator:
         return 'let %s := %s in\n  ' % (cn, v.s), env
 
     def assign(self, target, value, rest, env, st):
-        if isinstance(target, ast.Name) and isinstance(value, ast.Tuple) and value.elts:
-            # keep the components of a literal tuple as separate variables
-            pre, env2, parts = '', dict(env), []
+        if isinstance(target, ast.Name) and isinstance(value, (ast.Tuple, ast.List)) and value.elts \
+                and not any(isinstance(x, ast.Starred) for x in value.elts) \
+                and (isinstance(value, ast.Tuple) or self.fixed_list(target.id)):
+            # keep the components of a literal tuple (or fixed-size list) as separate variables
+            pre, env2, keys = '', dict(env), []
             for i, el in enumerate(value.elts):
                 v = self.expr(el, env)
-                p, env2 = self.bind('%s_%d' % (target.id, i), v, env2)
+                k = '%s_%d' % (target.id, i)
+                p, env2 = self.bind(k, v, env2)
                 pre += p
-                parts.append(env2['%s_%d' % (target.id, i)])
-            env2[target.id] = Val('(' + ', '.join(p.s for p in parts) + ')', TTup([p.t for p in parts]), parts)
+                keys.append(k)
+            env2[target.id] = ('parts', keys)
             return pre + self.block(rest, env2)
         if isinstance(target, ast.Name):
             v = self.expr(value, env)
@@ -701,6 +740,24 @@ class FuncTranslator:
         if isinstance(target, ast.Attribute) and isinstance(target.value, ast.Name) and target.value.id == 'self':
             v = self.expr(value, env)
             pre, env2 = self.bind('self.' + target.attr, v, env)
+            return pre + self.block(rest, env2)
+        if isinstance(target, ast.Attribute) and isinstance(target.value, ast.Name) and target.value.id in env \
+                and isinstance(env[target.value.id], Val) and isinstance(env[target.value.id].t, TObj) \
+                and target.attr.startswith('_'):
+            cfg = CLASSES.root_cfg(env[target.value.id].t.cls)
+            if target.attr not in [f[0] for f in cfg['fields']]:
+                return self.block(rest, env)      # memo slot of another object: not part of its value
+            # defining slot of a local object: functional record update
+            obj = env[target.value.id]
+            v = self.expr(value, env)
+            parts = []
+            for slot, acc, ty in cfg['fields']:
+                if slot == target.attr:
+                    parts.append(paren(self.coerce(v, ty)))
+                else:
+                    parts.append('(%s %s)' % (acc, paren(obj.s)))
+            new = Val('%s %s' % (cfg['ctor'], ' '.join(parts)), obj.t)
+            pre, env2 = self.bind(target.value.id, new, env)
             return pre + self.block(rest, env2)
         if isinstance(target, (ast.Tuple, ast.List)):
             v = self.expr(value, env)
@@ -724,6 +781,14 @@ class FuncTranslator:
                 names.append(cn)
                 env2[e.id] = Val(cn, Q if isinstance(t, TNum) else t)
             return "let '(%s) := %s in\n  " % (', '.join(names), v.s) + self.block(rest, env2)
+        if isinstance(target, ast.Subscript) and isinstance(target.value, ast.Name) \
+                and isinstance(env.get(target.value.id), tuple) and env[target.value.id][0] == 'parts' \
+                and isinstance(target.slice, ast.Constant) and isinstance(target.slice.value, int):
+            keys = env[target.value.id][1]
+            k = keys[target.slice.value]
+            v = self.expr(value, env)
+            pre, env2 = self.bind(k, v, env)
+            return pre + self.block(rest, env2)
         if isinstance(target, ast.Subscript) and isinstance(target.value, ast.Name):
             # l[i] = v   (list update)
             lst = self.expr(target.value, env)
@@ -735,8 +800,77 @@ class FuncTranslator:
                 return pre + self.block(rest, env2)
         self.fail(st, 'assignment target')
 
+    def inline_self_effects(self, fn, mod, rest, env, st, args=(), argvals=()):
+        """inline a property / method of self evaluated for its effect on memo slots"""
+        body = [b for b in fn.body if not (isinstance(b, ast.Expr) and isinstance(b.value, ast.Constant))]
+        if body and isinstance(body[-1], ast.Return):
+            body = body[:-1]
+        if contains_return(body):
+            self.fail(st, 'cannot inline %s for its side effects (early return)' % fn.name)
+        env_in = dict(env)
+        pre = ''
+        for p, v in zip(args, argvals):
+            pp, env_in = self.bind(p, v, env_in)
+            pre += pp
+        live = [n for n in assigned_names(body) if n.startswith('self.')]
+        saved = self.mod
+        self.mod = mod
+        try:
+            s_, env_out = self.branch_tuple(body, env_in, live)
+        finally:
+            self.mod = saved
+        env2 = dict(env)
+        for k, v in env_out.items():
+            if k.startswith('self.'):
+                env2[k] = v
+        return pre + s_ + self.block(rest, env2)
+
+    def only_touches_memo_of_args(self, fn):
+        """does this method only assign memo slots of its (non-self) parameters?"""
+        params = [a.arg for a in fn.args.args]
+        for b in fn.body:
+            if isinstance(b, ast.Expr) and isinstance(b.value, ast.Constant):
+                continue
+            if isinstance(b, ast.Assign) and len(b.targets) == 1 and isinstance(b.targets[0], ast.Attribute) \
+                    and isinstance(b.targets[0].value, ast.Name) and b.targets[0].value.id in params[1:] \
+                    and b.targets[0].attr.startswith('_'):
+                continue
+            if isinstance(b, ast.If) and all(isinstance(x, ast.Assign) and isinstance(x.targets[0], ast.Attribute)
+                                             and isinstance(x.targets[0].value, ast.Name)
+                                             and x.targets[0].value.id in params[1:] for x in b.body + b.orelse):
+                continue
+            return False
+        return True
+
     def expr_stmt(self, st, rest, env):
         c = st.value
+        # self.prop  /  self.method(...)  evaluated only to fill memo slots of self
+        if isinstance(c, ast.Attribute) and isinstance(c.value, ast.Name) and c.value.id == 'self' and not self.is_init:
+            found = CLASSES.find_member(self.self_cls, c.attr)
+            if found and isinstance(found[2], ast.FunctionDef) and method_kind(found[2]) == 'property':
+                return self.inline_self_effects(found[2], found[1], rest, env, st)
+        if isinstance(c, ast.Call) and isinstance(c.func, ast.Attribute) and isinstance(c.func.value, ast.Name) \
+                and c.func.value.id == 'self' and not self.is_init:
+            found = CLASSES.find_member(self.self_cls, c.func.attr)
+            if found and isinstance(found[2], ast.FunctionDef) and method_kind(found[2]) == 'method':
+                fn = found[2]
+                if self.only_touches_memo_of_args(fn):
+                    return self.block(rest, env)       # memo transfer to another object: no effect on values
+                params = [a.arg for a in fn.args.args][1:]
+                if len(params) == len(c.args):
+                    vals = [self.expr(a, env) for a in c.args]
+                    return self.inline_self_effects(fn, found[1], rest, env, st, params, vals)
+        # X.append(X.pop(0)): rotate left
+        if isinstance(c, ast.Call) and isinstance(c.func, ast.Attribute) and c.func.attr == 'append' \
+                and isinstance(c.func.value, ast.Name) and len(c.args) == 1 and isinstance(c.args[0], ast.Call) \
+                and isinstance(c.args[0].func, ast.Attribute) and c.args[0].func.attr == 'pop' \
+                and isinstance(c.args[0].func.value, ast.Name) and c.args[0].func.value.id == c.func.value.id \
+                and len(c.args[0].args) == 1 and isinstance(c.args[0].args[0], ast.Constant) and c.args[0].args[0].value == 0:
+            nm = c.func.value.id
+            lst = env[nm]
+            new = Val('py_rotl %s' % paren(lst.s), lst.t)
+            pre, env2 = self.bind(nm, new, env)
+            return pre + self.block(rest, env2)
         # Base.__init__(self, a, b) inside __init__: inline the base initialiser
         if self.is_init and isinstance(c, ast.Call) and isinstance(c.func, ast.Attribute) and c.func.attr == '__init__' \
                 and isinstance(c.func.value, ast.Name) and c.args and isinstance(c.args[0], ast.Name) and c.args[0].id == 'self':
@@ -850,6 +984,9 @@ class FuncTranslator:
             return None
         if isinstance(test, ast.Constant) and isinstance(test.value, bool):
             return test.value
+        if isinstance(test, ast.Name) and test.id in env and isinstance(env[test.id], Val) \
+                and isinstance(env[test.id].t, TNone):
+            return False
         return None
 
     def is_cache_slot(self, attr):
@@ -882,7 +1019,7 @@ class FuncTranslator:
             b = self.block(list(some_body) + rest, env_some)
             return 'match %s with\n  | None => %s\n  | Some %s => %s\n  end' % (v.s, a, cn, b)
         c = self.cond(st.test, env)
-        if not contains_return(st.body) and not contains_return(st.orelse) and rest:
+        if not contains_return(st.body) and not contains_return(st.orelse) and (rest or getattr(self, 'extra_live', None)):
             # merge form: only assignments
             names = [n for n in assigned_names(st.body + st.orelse)]
             used = set()
@@ -894,9 +1031,14 @@ class FuncTranslator:
                         used.add('self.' + nd.attr)
             if self.is_init:
                 used |= {'self.' + f[0] for f in CLASSES.root_cfg(self.self_cls)['fields']}
+            for lv in getattr(self, 'extra_live', None) or []:
+                used |= set(lv)
             live = []
             for n in names:
-                if n not in used:
+                if isinstance(env.get(n), tuple):
+                    continue
+                base_ = n.rsplit('_', 1)[0]
+                if n not in used and not (base_ in used and isinstance(env.get(base_), tuple)):
                     continue
                 in_a = n in assigned_names(st.body) or n in env
                 in_b = n in assigned_names(st.orelse) or n in env
@@ -938,10 +1080,14 @@ class FuncTranslator:
             result['env'] = e
             return '\0'
         self.finish = fin
+        if not hasattr(self, 'extra_live'):
+            self.extra_live = []
+        self.extra_live.append(list(live))
         try:
             s = self.block(stmts, env)
         finally:
             self.finish = saved_finish
+            self.extra_live.pop()
         if 'env' not in result or not s.endswith('\0') or s.count('\0') != 1:
             self.fail(stmts[0] if stmts else self.fn, 'branch is not assignment-only')
         return s[:-1], result['env']
@@ -972,6 +1118,9 @@ class FuncTranslator:
                 a = self.block(list(st.handlers[0].body) + rest, env)
                 b = self.block(list(st.body) + rest, env)
                 return 'if %s then %s\n  else %s' % (c, paren(a), paren(b))
+            if st.handlers[0].body and isinstance(st.handlers[0].body[0], ast.Raise):
+                # the handler only re-raises as another error: theorems are about normal returns
+                return self.block(list(st.body) + rest, env)
             if exc == 'ValueError':
                 # math domain errors (acos of 1+eps) cannot occur in the ideal model
                 return self.block(list(st.body) + rest, env)
@@ -983,7 +1132,7 @@ class FuncTranslator:
         if st.orelse or contains_return(st.body):
             self.fail(st, 'for loop with return/break/continue/else')
         it = self.iterable(st.iter, env)
-        acc = [n for n in assigned_names(st.body) if n in env]
+        acc = [n for n in assigned_names(st.body) if n in env and not isinstance(env[n], tuple)]
         if not acc:
             self.fail(st, 'for loop without accumulator')
         # loop variable pattern
@@ -996,6 +1145,20 @@ class FuncTranslator:
             acc_c.append(cn)
             env_b[n] = Val(cn, v.t)
         body_s, body_env = self.branch_tuple(list(st.body), env_b, acc)
+        # accumulators that start as an empty list get their element type from the loop body
+        retry = False
+        for n in acc:
+            if isinstance(env[n].t, TLst) and env[n].t.t is None and isinstance(body_env[n].t, TLst) \
+                    and body_env[n].t.t is not None:
+                env = dict(env)
+                env[n] = Val(env[n].s, body_env[n].t)
+                retry = True
+        if retry:
+            env_b = dict(env)
+            pat = self.pattern(st.target, it.t.t, env_b)
+            for n, cn in zip(acc, acc_c):
+                env_b[n] = Val(cn, env[n].t)
+            body_s, body_env = self.branch_tuple(list(st.body), env_b, acc)
         outs = []
         for n in acc:
             outs.append(self.coerce(body_env[n], env[n].t))
@@ -1082,6 +1245,9 @@ class FuncTranslator:
     def e_Name(self, e, env):
         if e.id in env:
             v = env[e.id]
+            if isinstance(v, tuple) and v[0] == 'parts':
+                parts = [env[k] for k in v[1]]
+                return Val('(' + ', '.join(p.s for p in parts) + ')', TTup([p.t for p in parts]), parts)
             if isinstance(v, tuple):
                 return self.expr(v[1], env)
             return v
@@ -1186,6 +1352,11 @@ class FuncTranslator:
                 s = 'opt_is_none %s' % paren(v.s)
                 return s if isinstance(op, ast.Is) else 'negb (%s)' % s
             self.fail(node, 'is-comparison')
+        pl, pr = self.parts_of(l, env), self.parts_of(r, env)
+        if pl is not None and pr is not None and len(pl) == len(pr) and isinstance(op, (ast.Eq, ast.NotEq)):
+            ps = [self.numcmp(x, ast.Eq(), y, node) for x, y in zip(pl, pr)]
+            s_ = '(' + ' && '.join(paren(p) for p in ps) + ')'
+            return s_ if isinstance(op, ast.Eq) else 'negb ' + s_
         a, b = self.expr(l, env), self.expr(r, env)
         if isinstance(a.t, TObj) or isinstance(b.t, TObj):
             if isinstance(op, (ast.Eq, ast.NotEq)) and isinstance(a.t, TObj):
@@ -1206,6 +1377,13 @@ class FuncTranslator:
             b2 = Val('(if %s then 1 else 0)' % b.s, Q) if isinstance(b.t, TB) else b
             return self.numcmp(a2, op, b2, node)
         return self.numcmp(a, op, b, node)
+
+    def parts_of(self, node, env):
+        if isinstance(node, (ast.Tuple, ast.List)) and node.elts:
+            return [self.expr(x, env) for x in node.elts]
+        if isinstance(node, ast.Name) and isinstance(env.get(node.id), tuple) and env[node.id][0] == 'parts':
+            return [env[k] for k in env[node.id][1]]
+        return None
 
     def numcmp(self, a, op, b, node):
         if isinstance(a.t, (TZ,)) and isinstance(b.t, (TZ, TNum)) or isinstance(a.t, TNum) and isinstance(b.t, TZ):
@@ -1270,6 +1448,9 @@ class FuncTranslator:
         self.fail(e, 'operator %s on %r, %r' % (op.__name__, a.t, b.t))
 
     def e_Subscript(self, e, env):
+        if isinstance(e.value, ast.Name) and isinstance(env.get(e.value.id), tuple) and env[e.value.id][0] == 'parts' \
+                and isinstance(e.slice, ast.Constant) and isinstance(e.slice.value, int):
+            return env[env[e.value.id][1][e.slice.value]]
         v = self.expr(e.value, env)
         sl = e.slice
         if isinstance(v.t, TTup):
@@ -1331,12 +1512,37 @@ class FuncTranslator:
         if isinstance(e.value, ast.Name) and e.value.id == 'self' and ('self.' + e.attr) in env:
             return env['self.' + e.attr]
         v = self.expr(e.value, env)
+        if v.s == '<building>' and isinstance(v.t, TObj):
+            return self.building_attr(v, e.attr, e, env)
         return self.getattr_val(v, e.attr, e)
+
+    def building_attr(self, v, attr, node, env):
+        """attribute of the object under construction (inside __init__): slots come from the
+        assignments made so far, properties are inlined on those"""
+        cls = v.t.cls
+        found = CLASSES.find_member(cls, attr)
+        if found is None or not isinstance(found[2], ast.FunctionDef):
+            self.fail(node, 'read of unassigned self.%s' % attr)
+        owner, mod, fn = found
+        if method_kind(fn) != 'property':
+            self.fail(node, 'bound method of the object under construction')
+        sub = FuncTranslator(self.tr, 'inline', owner, mod, fn, [], cls)
+        env_in = {k: val for k, val in env.items() if k == 'self' or k.startswith('self.')}
+        sub.is_init = False
+        sub.pass_no = 1
+        sub.ret_seen = []
+        sub.block(list(fn.body), dict(env_in))
+        sub.ret_ty = sub.unify_returns(sub.ret_seen)
+        sub.pass_no = 2
+        body = sub.block(list(fn.body), dict(env_in))
+        self.oracles.update(sub.oracles)
+        return Val('(' + dead_let_elim(body) + ')', sub.ret_ty)
 
     def getattr_val(self, v, attr, node):
         if isinstance(v.t, TObj):
             cls = v.t.cls
             cfg = CLASSES.root_cfg(cls)
+            attr = cfg.get('alias_slots', {}).get(attr, attr)
             for slot, acc, ty in cfg['fields']:
                 if slot == attr:
                     if v.s == '<building>':
@@ -1360,7 +1566,7 @@ class FuncTranslator:
             body = [s for s in fn.body if not (isinstance(s, ast.Expr) and isinstance(s.value, ast.Constant))]
             if len(body) == 1 and isinstance(body[0], ast.Return) and isinstance(body[0].value, ast.Attribute) \
                     and isinstance(body[0].value.value, ast.Name) and body[0].value.value.id == 'self':
-                slot = body[0].value.attr
+                slot = cfg.get('alias_slots', {}).get(body[0].value.attr, body[0].value.attr)
                 for s2, acc, ty in cfg['fields']:
                     if s2 == slot:
                         return Val('%s %s' % (acc, paren(v.s)), ty)
@@ -1402,6 +1608,8 @@ class FuncTranslator:
 
     def call_method(self, recv, meth, args, node):
         cls = recv.t.cls
+        if recv.s == '<building>':
+            recv = Val('tt', TCls(cls))     # a method called on the half-built object may not read its fields
         found = CLASSES.find_member(cls, meth)
         if found is None:
             self.fail(node, 'no method %s on %s' % (meth, cls))
@@ -1422,14 +1630,18 @@ class FuncTranslator:
             params = [a.arg for a in fn.args.args]
             if kind in ('init', 'classmethod'):
                 params = params[1:]
+            if kind == 'method':
+                pass
             for k, v in kwargs.items():
                 if k not in params:
                     self.fail(node, 'unknown keyword %s' % k)
                 i = params.index(k)
                 while len(args) < i:
-                    self.fail(node, 'keyword argument skipping positionals')
+                    args.append(Val('tt', TDefault()))
                 if len(args) == i:
                     args.append(v)
+                elif isinstance(args[i].t, TDefault):
+                    args[i] = v
                 else:
                     self.fail(node, 'duplicate argument')
         tys = [a.t for a in args]
@@ -1437,7 +1649,7 @@ class FuncTranslator:
         name, rty, orcs = self.tr.instantiate(kind, owner, mod, fn, tys, self_cls=self_cls)
         self.oracles.update(orcs)
         actual = [paren(self.coerce(a, Q) if isinstance(a.t, TNum) else a.s)
-                  for a in args if not isinstance(a.t, (TNone, TCls, TStr))]
+                  for a in args if not isinstance(a.t, (TNone, TCls, TStr, TDefault))]
         return Val(' '.join([name] + orcs + actual), rty)
 
     def construct(self, cls, args, node, kwargs=None):
@@ -1467,6 +1679,9 @@ class FuncTranslator:
             if f.attr == 'fabs':
                 return Val('Qabs %s' % paren(args[0]), Q)
             self.fail(e, 'math.%s' % f.attr)
+        if any(isinstance(a, ast.Starred) for a in e.args):
+            e = self.expand_starred(e, env)
+            f = e.func
         if isinstance(f, ast.Name):
             args = [self.expr(a, env) for a in e.args]
             b = self.builtin(f.id, args, e, env)
@@ -1515,6 +1730,25 @@ class FuncTranslator:
             if isinstance(f, ast.Attribute):
                 pass
         self.fail(e, 'call')
+
+    def expand_starred(self, e, env):
+        new_args = []
+        for a in e.args:
+            if isinstance(a, ast.Starred):
+                v = a.value
+                if isinstance(v, ast.Name) and isinstance(env.get(v.id), tuple) and env[v.id][0] == 'parts':
+                    for i in range(len(env[v.id][1])):
+                        new_args.append(ast.Subscript(value=ast.Name(id=v.id, ctx=ast.Load()),
+                                                      slice=ast.Constant(value=i), ctx=ast.Load()))
+                    continue
+                if isinstance(v, ast.Tuple):
+                    new_args.extend(v.elts)
+                    continue
+                self.fail(e, 'starred argument')
+            else:
+                new_args.append(a)
+        e2 = ast.Call(func=e.func, args=new_args, keywords=e.keywords)
+        return ast.copy_location(e2, e)
 
     def call_method_kw(self, recv, meth, args, kwargs, node):
         cls = recv.t.cls
